@@ -228,3 +228,59 @@ func VerifC02FirstUse() {
 	verifrt.Assert("c02.first-use.reporter-holds-the-latest-update", verifrt.And(n >= 1, bits == fbits(v2)))
 	verifrt.Reach("c02.first-use.end")
 }
+
+// VerifC02RetiredHandle: a caller may keep a Gauge of a subscope that was closed, reported for
+// the last time and dropped.  Whatever it does with that handle afterwards, a live gauge is
+// only ever delivered values that were passed to Update on that gauge, and its most recent
+// delivery is its own last update (sequential; plain and cached reporter).
+func VerifC02RetiredHandle() {
+	rec := &vReporter{}
+	crec := &vCachedReporter{}
+	cached := verifrt.Choose("cached", 2) == 1
+	opts := ScopeOptions{OmitCardinalityMetrics: true, registryShardCount: 1}
+	if cached {
+		opts.CachedReporter = crec
+	} else {
+		opts.Reporter = rec
+	}
+	root := newRootScope(opts, 0)
+	a, b, c := verifrt.Float64("v"), verifrt.Float64("v"), verifrt.Float64("v")
+	old := root.SubScope("a")
+	h := old.Gauge("g")
+	h.Update(a)
+	old.(*scope).Close()
+	root.reportRegistry() // last report of "a", then it is dropped
+	lateFirst := verifrt.Choose("late-update-before-creation", 2) == 1
+	if lateFirst {
+		h.Update(b)
+	}
+	live := root.SubScope("b").Gauge("d")
+	live.Update(c)
+	if !lateFirst {
+		h.Update(b)
+	}
+	root.reportRegistry()
+	h.Update(b)
+	root.reportRegistry()
+	n := 0
+	var last uint64
+	if cached {
+		for _, cl := range crec.calls {
+			if cl.kind == "gauge" && crec.allocs[cl.alloc].name == "b.d" {
+				n++
+				last = fbits(cl.f)
+				verifrt.Assert("c02.retired-handle.live-gauge-only-delivers-its-own-updates", fbits(cl.f) == fbits(c))
+			}
+		}
+	} else {
+		for _, cl := range rec.calls {
+			if cl.kind == "gauge" && cl.name == "b.d" {
+				n++
+				last = fbits(cl.f)
+				verifrt.Assert("c02.retired-handle.live-gauge-only-delivers-its-own-updates", fbits(cl.f) == fbits(c))
+			}
+		}
+	}
+	verifrt.Assert("c02.retired-handle.live-gauge-delivered-once", n == 1 && last == fbits(c))
+	verifrt.Reach("c02.retired-handle.end")
+}
